@@ -754,9 +754,69 @@ func (c *ctxT) body(cal *callee, callerFile string, recvText string, argTexts []
 		blanks := strings.Repeat("_, ", len(used))
 		fmt.Fprintf(&sb, "%s = %s; ", strings.TrimSuffix(blanks, ", "), strings.Join(used, ", "))
 	}
+	// a function whose defers all come first: its deferred calls are made after the body (see leadingDefersOnly)
+	var deferred []string
+	if hasDefer(cal.decl) {
+		for _, st := range cal.decl.Body.List {
+			ds, ok := st.(*ast.DeferStmt)
+			if !ok {
+				break
+			}
+			// "defer func() { BODY }()" with a BODY that neither returns nor defers is BODY itself, made later
+			if lit, isLit := ds.Call.Fun.(*ast.FuncLit); isLit && len(ds.Call.Args) == 0 {
+				plainBody := true
+				ast.Inspect(lit.Body, func(m ast.Node) bool {
+					switch m.(type) {
+					case *ast.ReturnStmt, *ast.DeferStmt:
+						plainBody = false
+					case *ast.FuncLit:
+						return false
+					}
+					return true
+				})
+				if plainBody {
+					lp := c.fset.Position(lit.Body.Lbrace)
+					deferred = append(deferred, fmt.Sprintf("\n//line %s:%d\n%s", lp.Filename, lp.Line, c.text(src, lit.Body)))
+					continue
+				}
+			}
+			deferred = append(deferred, strings.Join(strings.Fields(c.text(src, ds.Call)), " "))
+		}
+	}
+	retLabel := label
+	bareLabel := label
+	retTargets := results
+	var resultNames []string
+	if len(deferred) > 0 {
+		retLabel = pfx + "D"
+		bareLabel = retLabel
+		fmt.Fprintf(&sb, "%s: for { ", retLabel)
+		if named {
+			// the deferred calls read and write the named results, so a "return e" must have put e there
+			// before they run; e is evaluated where it stands (names may be shadowed there), carried out
+			// in the result temporaries, and assigned to the named results outside the body
+			for _, r := range ress {
+				if r.name == "" || r.name == "_" {
+					return "", nil, false
+				}
+				resultNames = append(resultNames, r.name)
+			}
+			retLabel = pfx + "E"
+			fmt.Fprintf(&sb, "%s: for { ", retLabel)
+		}
+	}
 	// body text with returns rewritten
 	bstart, bend := c.off(cal.decl.Body.Lbrace)+1, c.off(cal.decl.Body.Rbrace)
 	var redits []edit
+	for _, st := range cal.decl.Body.List {
+		ds, ok := st.(*ast.DeferStmt)
+		if !ok || len(deferred) == 0 {
+			break
+		}
+		// blank the defer statement (keeping its line breaks)
+		nl := strings.Repeat("\n", bytes.Count(src[c.off(ds.Pos()):c.off(ds.End())], []byte("\n")))
+		redits = append(redits, edit{c.off(ds.Pos()) - bstart, c.off(ds.End()) - bstart, "/* deferred: run after the body */" + nl})
+	}
 	var walk func(n ast.Node) bool
 	walk = func(n ast.Node) bool {
 		switch x := n.(type) {
@@ -766,7 +826,7 @@ func (c *ctxT) body(cal *callee, callerFile string, recvText string, argTexts []
 			var t string
 			switch {
 			case len(ress) == 0:
-				t = "break " + label
+				t = "break " + retLabel
 			case len(x.Results) == 0:
 				if !named {
 					return false
@@ -778,13 +838,17 @@ func (c *ctxT) body(cal *callee, callerFile string, recvText string, argTexts []
 					}
 					ns = append(ns, r.name)
 				}
-				t = fmt.Sprintf("{ %s = %s; break %s }", strings.Join(results, ", "), strings.Join(ns, ", "), label)
+				if len(deferred) > 0 {
+					t = "break " + bareLabel // the named results already hold the values
+				} else {
+					t = fmt.Sprintf("{ %s = %s; break %s }", strings.Join(results, ", "), strings.Join(ns, ", "), label)
+				}
 			default:
 				var es []string
 				for _, e := range x.Results {
 					es = append(es, c.text(src, e))
 				}
-				t = fmt.Sprintf("{ %s = %s; break %s }", strings.Join(results, ", "), strings.Join(es, ", "), label)
+				t = fmt.Sprintf("{ %s = %s; break %s }", strings.Join(retTargets, ", "), strings.Join(es, ", "), retLabel)
 			}
 			redits = append(redits, edit{c.off(x.Pos()) - bstart, c.off(x.End()) - bstart, t})
 			return false
@@ -799,6 +863,19 @@ func (c *ctxT) body(cal *callee, callerFile string, recvText string, argTexts []
 	calleePos := c.fset.Position(cal.decl.Body.Lbrace)
 	fmt.Fprintf(&sb, "\n//line %s:%d\n", calleePos.Filename, calleePos.Line)
 	sb.Write(btext)
+	if len(deferred) > 0 {
+		// end of the body proper; then the deferred calls, last registered first
+		if len(resultNames) > 0 {
+			fmt.Fprintf(&sb, "; break %s }; %s = %s; break %s }; ", bareLabel, strings.Join(resultNames, ", "), strings.Join(results, ", "), bareLabel)
+		} else {
+			fmt.Fprintf(&sb, "; break %s }; ", retLabel)
+		}
+		for k := len(deferred) - 1; k >= 0; k-- {
+			sb.WriteString(deferred[k])
+			sb.WriteString("; ")
+		}
+		c.notes = append(c.notes, fmt.Sprintf("%s merged with its leading deferred call(s) made after the body (equivalent on every return; a panic inside the body would not be cleaned up after in this form)", cal.nameKey))
+	}
 	// implicit return at the end of a function without results (or with named results)
 	if len(ress) > 0 && named {
 		var ns []string
@@ -824,7 +901,7 @@ func (c *ctxT) inlineCall(p *packages.Package, f *ast.File, filename string, src
 	if e, ok := c.tailInline(p, f, filename, src, stack, call, recv, cal, done); ok {
 		return e, true
 	}
-	if hasDefer(cal.decl) {
+	if hasDefer(cal.decl) && !leadingDefersOnly(cal.decl) {
 		return nil, false
 	}
 	// arguments must not contain calls to other candidates (handled in a later round) — any nested call text is copied verbatim, fine
@@ -1594,4 +1671,108 @@ func (c *ctxT) switchesToIfs(mods []*packages.Package, root string, cur map[stri
 		}
 	}
 	return overlay
+}
+
+// leadingDefersOnly: every defer of the function is one of its first statements (before anything
+// else), and defers either a function literal called without arguments or a call whose receiver and
+// arguments are parameters the body never assigns. Such a function can be merged into a caller at
+// any statement position: the deferred calls are made, last first, after the body - which is when
+// they run on every return. (What differs is a panic inside the body, which the merged form does not
+// clean up after; the notes in the evidence say that this form was used.)
+func leadingDefersOnly(fd *ast.FuncDecl) bool {
+	if fd.Body == nil {
+		return false
+	}
+	lead := 0
+	for _, st := range fd.Body.List {
+		if _, ok := st.(*ast.DeferStmt); ok {
+			lead++
+			continue
+		}
+		break
+	}
+	if lead == 0 {
+		return false
+	}
+	// no other defer anywhere (outside nested literals), no recover
+	n := 0
+	bad := false
+	ast.Inspect(fd.Body, func(m ast.Node) bool {
+		switch x := m.(type) {
+		case *ast.FuncLit:
+			// recover inside a deferred literal changes panic behaviour: leave such functions alone
+			ast.Inspect(x, func(q ast.Node) bool {
+				if id, ok := q.(*ast.Ident); ok && id.Name == "recover" {
+					bad = true
+				}
+				return true
+			})
+			return false
+		case *ast.DeferStmt:
+			n++
+		}
+		return true
+	})
+	if bad || n != lead {
+		return false
+	}
+	params := map[string]bool{}
+	if fd.Recv != nil {
+		for _, f := range fd.Recv.List {
+			for _, nm := range f.Names {
+				params[nm.Name] = true
+			}
+		}
+	}
+	if fd.Type.Params != nil {
+		for _, f := range fd.Type.Params.List {
+			for _, nm := range f.Names {
+				params[nm.Name] = true
+			}
+		}
+	}
+	assigned := map[string]bool{}
+	ast.Inspect(fd.Body, func(m ast.Node) bool {
+		if as, ok := m.(*ast.AssignStmt); ok {
+			for _, l := range as.Lhs {
+				if id, ok := l.(*ast.Ident); ok {
+					assigned[id.Name] = true
+				}
+			}
+		}
+		if u, ok := m.(*ast.UnaryExpr); ok && u.Op == token.AND {
+			if id, ok := u.X.(*ast.Ident); ok {
+				assigned[id.Name] = true
+			}
+		}
+		return true
+	})
+	plain := func(e ast.Expr) bool {
+		id, ok := e.(*ast.Ident)
+		return ok && params[id.Name] && !assigned[id.Name]
+	}
+	for _, st := range fd.Body.List[:lead] {
+		call := st.(*ast.DeferStmt).Call
+		if _, isLit := call.Fun.(*ast.FuncLit); isLit {
+			if len(call.Args) != 0 {
+				return false
+			}
+			continue
+		}
+		switch fn := call.Fun.(type) {
+		case *ast.SelectorExpr:
+			if !plain(fn.X) {
+				return false
+			}
+		case *ast.Ident:
+		default:
+			return false
+		}
+		for _, a := range call.Args {
+			if !plain(a) {
+				return false
+			}
+		}
+	}
+	return true
 }
